@@ -187,8 +187,13 @@ def run_stream(tier, r, budget_s, on_case, on_rule=None):
         if time.time() - t0 > budget_s:
             st["stopped_by_time_budget"] = True
             break
-        if outcome(lambda: rr.rrule(**R._kw(rr, kw))) == "SLOW":
+        base_out = outcome(lambda: rr.rrule(**R._kw(rr, kw)))
+        if base_out == "SLOW":
             st["rules_skipped_slow"] += 1
+            continue
+        if base_out[:1] == ["EXC"]:
+            # the constructor rejects these arguments: there is no rule to call replace() on
+            st["rules_rejected_by_constructor"] = st.get("rules_rejected_by_constructor", 0) + 1
             continue
         st["rules"] += 1
         if on_rule is not None:
